@@ -307,15 +307,15 @@ Pat/Base64.vos Pat/Base64.vok Pat/Base64.required_vos: Pat/Base64.v Pat/Syntax.v
 Pat/Base64Proofs.vo Pat/Base64Proofs.glob Pat/Base64Proofs.v.beautified Pat/Base64Proofs.required_vo: Pat/Base64Proofs.v Pat/Syntax.vo Pat/Sem.vo Pat/Matcher.vo Pat/Modifiers.vo Pat/ModifiersProofs.vo Pat/Base64.vo
 Pat/Base64Proofs.vio: Pat/Base64Proofs.v Pat/Syntax.vio Pat/Sem.vio Pat/Matcher.vio Pat/Modifiers.vio Pat/ModifiersProofs.vio Pat/Base64.vio
 Pat/Base64Proofs.vos Pat/Base64Proofs.vok Pat/Base64Proofs.required_vos: Pat/Base64Proofs.v Pat/Syntax.vos Pat/Sem.vos Pat/Matcher.vos Pat/Modifiers.vos Pat/ModifiersProofs.vos Pat/Base64.vos
-Pat/Blocks.vo Pat/Blocks.glob Pat/Blocks.v.beautified Pat/Blocks.required_vo: Pat/Blocks.v 
-Pat/Blocks.vio: Pat/Blocks.v 
-Pat/Blocks.vos Pat/Blocks.vok Pat/Blocks.required_vos: Pat/Blocks.v 
+Pat/Blocks.vo Pat/Blocks.glob Pat/Blocks.v.beautified Pat/Blocks.required_vo: Pat/Blocks.v Gen/ScanState.vo
+Pat/Blocks.vio: Pat/Blocks.v Gen/ScanState.vio
+Pat/Blocks.vos Pat/Blocks.vok Pat/Blocks.required_vos: Pat/Blocks.v Gen/ScanState.vos
 Pat/BlocksCheck.vo Pat/BlocksCheck.glob Pat/BlocksCheck.v.beautified Pat/BlocksCheck.required_vo: Pat/BlocksCheck.v Pat/Blocks.vo Gen/ScanState.vo Scanner/State.vo
 Pat/BlocksCheck.vio: Pat/BlocksCheck.v Pat/Blocks.vio Gen/ScanState.vio Scanner/State.vio
 Pat/BlocksCheck.vos Pat/BlocksCheck.vok Pat/BlocksCheck.required_vos: Pat/BlocksCheck.v Pat/Blocks.vos Gen/ScanState.vos Scanner/State.vos
-Pat/BlocksProofs.vo Pat/BlocksProofs.glob Pat/BlocksProofs.v.beautified Pat/BlocksProofs.required_vo: Pat/BlocksProofs.v Pat/Blocks.vo
-Pat/BlocksProofs.vio: Pat/BlocksProofs.v Pat/Blocks.vio
-Pat/BlocksProofs.vos Pat/BlocksProofs.vok Pat/BlocksProofs.required_vos: Pat/BlocksProofs.v Pat/Blocks.vos
+Pat/BlocksProofs.vo Pat/BlocksProofs.glob Pat/BlocksProofs.v.beautified Pat/BlocksProofs.required_vo: Pat/BlocksProofs.v Gen/ScanState.vo Pat/Blocks.vo
+Pat/BlocksProofs.vio: Pat/BlocksProofs.v Gen/ScanState.vio Pat/Blocks.vio
+Pat/BlocksProofs.vos Pat/BlocksProofs.vok Pat/BlocksProofs.required_vos: Pat/BlocksProofs.v Gen/ScanState.vos Pat/Blocks.vos
 Pat/C01Check.vo Pat/C01Check.glob Pat/C01Check.v.beautified Pat/C01Check.required_vo: Pat/C01Check.v Gen/PatConsts.vo Pat/Syntax.vo Pat/Sem.vo Pat/Matcher.vo Pat/Modifiers.vo Pat/MatchList.vo Pat/Base64.vo
 Pat/C01Check.vio: Pat/C01Check.v Gen/PatConsts.vio Pat/Syntax.vio Pat/Sem.vio Pat/Matcher.vio Pat/Modifiers.vio Pat/MatchList.vio Pat/Base64.vio
 Pat/C01Check.vos Pat/C01Check.vok Pat/C01Check.required_vos: Pat/C01Check.v Gen/PatConsts.vos Pat/Syntax.vos Pat/Sem.vos Pat/Matcher.vos Pat/Modifiers.vos Pat/MatchList.vos Pat/Base64.vos
